@@ -1,2 +1,363 @@
-//! Harnesses for property C07 (see /verif/properties.jsonl).
+//! Harnesses for property C07 (see /verif/properties.jsonl):
+//! for an NTS source, a datagram that is not authenticated under the session's s2c key and bound to
+//! the pending request has no observable effect; new cookies only come from the encrypted part of
+//! an authenticated response.
+//!
+//! Shape of every harness: an NTS source (NTPv4 or NTPv5 — the two versions an NTS key exchange
+//! can produce) with an arbitrary stash and arbitrary poll/reach state performs one REAL
+//! `handle_timer` (so the pending unique identifier and origin/cookie are the real, random ones),
+//! then receives ONE datagram built from a layout template whose type/length fields are fixed and
+//! whose content bytes are symbolic. The attacker may copy the unique identifier and the origin
+//! timestamp / client cookie from the request (they travel in clear text).
+//!
+//! Authenticity is decided by the ideal-AEAD model (common.rs): `authentic` = "the server really
+//! produced exactly this AAD/nonce/ciphertext under s2c". A datagram is *bound* to the pending
+//! request iff its unique-identifier field (inside the authenticated part) equals the request's and
+//! its origin timestamp (v4) / client cookie (v5) equals the request's.
+use crate::common::*;
 use crate::stubs;
+use ntp_proto::verif::packet::v5::server_reference_id as bh;
+use ntp_proto::verif::source as sh;
+use ntp_proto::verif::time_types as th;
+use ntp_proto::*;
+
+const DRAFT: &[u8; 23] = b"draft-ietf-ntp-ntpv5-09";
+
+/// Layout template: header48 [+ draft-id EF (v5)] + uid EF(36) [+ Y: EF of `y_len` bytes, symbolic
+/// type] [+ NTS authenticator EF with a 16-byte nonce and `inner` encrypted 16-byte EFs of symbolic
+/// type] [+ X: trailing EF of `x_len` bytes, symbolic type].
+#[derive(Clone, Copy)]
+pub struct Layout {
+    pub v5: bool,
+    pub y_len: usize,
+    pub has_nts: bool,
+    pub inner: usize,
+    pub x_len: usize,
+}
+
+impl Layout {
+    pub const fn uid_off(&self) -> usize {
+        if self.v5 { 48 + 28 } else { 48 }
+    }
+    pub const fn y_off(&self) -> usize {
+        self.uid_off() + 36
+    }
+    pub const fn nts_off(&self) -> usize {
+        self.y_off() + self.y_len
+    }
+    pub const fn ct_len(&self) -> usize {
+        16 * self.inner + TAG_LEN
+    }
+    pub const fn nts_len(&self) -> usize {
+        if self.has_nts { 8 + NONCE_LEN + self.ct_len() } else { 0 }
+    }
+    pub const fn x_off(&self) -> usize {
+        self.nts_off() + self.nts_len()
+    }
+    pub const fn total(&self) -> usize {
+        self.x_off() + self.x_len
+    }
+}
+
+fn put16(b: &mut [u8], off: usize, v: usize) {
+    b[off] = (v >> 8) as u8;
+    b[off + 1] = v as u8;
+}
+
+/// which of the two known departures of the unchanged tree a harness is about
+#[derive(Clone, Copy, PartialEq, Eq)]
+pub enum Split {
+    /// assume the defect's predicate away (must pass)
+    Main,
+    /// assume the defect's predicate (expected to fail on the unchanged tree)
+    KfAuthnakKiss,
+}
+
+fn c07_body(lay: Layout, msg: &mut [u8], split: Split) -> Obs {
+    // ---- all symbolic values up front
+    stubs::symbolic_clock();
+    stubs::symbolic_rng();
+    let read: usize = 6;
+    let valid: usize = kani::any();
+    kani::assume(valid <= MAX_COOKIES);
+    let desired: i8 = kani::any();
+    kani::assume(desired >= 4 && desired <= 10);
+    let remote_min: i8 = kani::any();
+    kani::assume(remote_min >= 4 && remote_min <= 17);
+    let reach: u8 = kani::any();
+    let tries: usize = kani::any();
+    kani::assume(tries <= 4);
+    let have_deny: bool = kani::any();
+    let stratum0: u8 = kani::any();
+    // the pending request: arbitrary unique identifier, origin timestamp / client cookie, deadline
+    let req_uid: [u8; 32] = kani::any();
+    let req_origin: u64 = kani::any();
+    let deadline_s: i64 = kani::any();
+    let deadline_n: u32 = kani::any();
+    kani::assume(deadline_s >= 0 && deadline_s < (1 << 40) && deadline_n < 1_000_000_000);
+    let uid_match: bool = kani::any();
+    let origin_match: bool = kani::any();
+    let authentic: bool = kani::any();
+    let send_raw: u64 = kani::any();
+    let recv_raw: u64 = kani::any();
+    assert!(msg.len() == lay.total());
+
+    // ---- pre-state: an NTS source that has a request in flight (what `handle_timer` leaves
+    // behind: c13_poll_* check that the pending identifier is the one on the wire)
+    let stash = stash_with_oldest(read, valid, vec![0xAA, 0xBB, 0xCC, 0xDD]);
+    let nts = sh::nts_data_with_stash(stash, c2s(), s2c());
+    let version = if lay.v5 { ProtocolVersion::V5 } else { ProtocolVersion::V4 };
+    let mut src = new_source(version, SourceConfig::default(), poll(desired), Some(nts));
+    sh::set_remote_min_poll_interval(&mut src, poll(remote_min));
+    sh::set_last_poll_interval(&mut src, poll(core::cmp::max(desired, remote_min)));
+    sh::set_reach(&mut src, reach);
+    sh::set_tries(&mut src, tries);
+    sh::set_have_deny(&mut src, have_deny);
+    sh::set_stratum(&mut src, stratum0);
+    let deadline = tokio::time::Instant::from_std(stubs::make_instant(deadline_s, deadline_n));
+    sh::set_pending(&mut src, Some((th::ts_from_raw(req_origin), Some(req_uid), deadline)));
+    let req_origin_bytes = req_origin.to_be_bytes();
+
+    // ---- the datagram: fixed framing, symbolic content
+    if lay.v5 {
+        msg[48] = 0xF5;
+        msg[49] = 0xFF;
+        put16(msg, 50, 4 + 23);
+        msg[52..75].copy_from_slice(DRAFT);
+        msg[75] = 0;
+    }
+    // version bits as the source expects them (other versions are dropped before anything is
+    // looked at: C12); symbolic field types never are the NTPv5 draft-identification type (UTF-8
+    // validation of symbolic bytes is out of reach; the genuine draft-id field is concrete)
+    kani::assume((msg[0] >> 3) & 7 == if lay.v5 { 5 } else { 4 });
+    if lay.v5 {
+        if lay.y_len > 0 {
+            kani::assume(!(msg[lay.y_off()] == 0xF5 && msg[lay.y_off() + 1] == 0xFF));
+        }
+        if lay.x_len > 0 {
+            kani::assume(!(msg[lay.x_off()] == 0xF5 && msg[lay.x_off() + 1] == 0xFF));
+        }
+        let mut k = 0;
+        while k < lay.inner {
+            let o = lay.nts_off() + 8 + NONCE_LEN + 16 * k;
+            kani::assume(!(msg[o] == 0xF5 && msg[o + 1] == 0xFF));
+            k += 1;
+        }
+    }
+    let u = lay.uid_off();
+    msg[u] = 0x01;
+    msg[u + 1] = 0x04;
+    put16(msg, u + 2, 36);
+    if uid_match {
+        msg[u + 4..u + 36].copy_from_slice(&req_uid);
+    }
+    if origin_match {
+        msg[24..32].copy_from_slice(&req_origin_bytes);
+    }
+    if lay.y_len > 0 {
+        put16(msg, lay.y_off() + 2, lay.y_len);
+    }
+    let n_off = lay.nts_off();
+    if lay.has_nts {
+        msg[n_off] = 0x04;
+        msg[n_off + 1] = 0x04;
+        put16(msg, n_off + 2, lay.nts_len());
+        put16(msg, n_off + 4, NONCE_LEN);
+        put16(msg, n_off + 6, lay.ct_len());
+        let mut k = 0;
+        while k < lay.inner {
+            put16(msg, n_off + 8 + NONCE_LEN + 16 * k + 2, 16);
+            k += 1;
+        }
+        expect_extents(msg, n_off, lay.ct_len(), authentic);
+    } else {
+        expect_extents(msg, 0, 0, false);
+    }
+    if lay.x_len > 0 {
+        put16(msg, lay.x_off() + 2, lay.x_len);
+    }
+
+    // "bound to the pending request", decided on the bytes
+    let uid_same = eq_words(&msg[u + 4..u + 36], &req_uid, 32);
+    let origin_same = eq_words(&msg[24..32], &req_origin_bytes, 8);
+    let bound = uid_same && origin_same;
+
+    // ---- observable state before
+    let st0 = sh::state(&src);
+    let ctl0_meas = sh::controller(&src).n_meas;
+    let ctl0_usable_calls = sh::controller(&src).n_usable;
+    let bloom0 = {
+        let (f, chunk, last, next, filled) = bh::remote_raw(sh::bloom_filter(&src));
+        (f.as_bytes()[0], f.as_bytes()[15], chunk, last.is_some(), next, filled)
+    };
+    assert!(st0.pending && ctl0_meas == 0);
+
+    // known departure of the unchanged tree (see the C07 props file): an UNAUTHENTICATED NTPv5
+    // datagram with stratum 0 and the authnak flag is let through by `valid_server_response`
+    // (NTS-NAK exception) and then hits the RATE / DENY branches, which come before the NTS-NAK one
+    let pollb = msg[2] as i8;
+    let last = th::poll_raw(st0.last_poll_interval);
+    let kf_pred = lay.v5 && msg[1] == 0 && (msg[15] & 0b100) != 0 && (pollb == 127 || pollb > last);
+    // a datagram the model could authenticate at all (decided before the call)
+    let may_accept = authentic && lay.has_nts && bound;
+    match split {
+        Split::Main => kani::assume(!(kf_pred && !may_accept)),
+        Split::KfAuthnakKiss => kani::assume(kf_pred && !may_accept),
+    }
+
+    // ---- the call under test
+    let (racts, rn) = collect_actions(src.handle_incoming(msg, th::ts_from_raw(send_raw), th::ts_from_raw(recv_raw)));
+
+    let dec_ok = unsafe { DEC_OK > 0 };
+    assert!(!dec_ok || (authentic && lay.has_nts), "model sanity: only the genuine triple decrypts");
+    assert!(unsafe { DEC_WRONG_KEY == 0 }, "responses are only ever checked under the s2c key");
+    let accepted_ok = dec_ok && bound;
+
+    let st1 = sh::state(&src);
+    let n_meas = sh::controller(&src).n_meas;
+    let processed = n_meas > 0;
+    let bloom1 = {
+        let (f, chunk, last, next, filled) = bh::remote_raw(sh::bloom_filter(&src));
+        (f.as_bytes()[0], f.as_bytes()[15], chunk, last.is_some(), next, filled)
+    };
+
+    if !accepted_ok {
+        assert!(rn == 0, "unauthenticated/unbound datagram: no action (no demobilisation, no reset)");
+        assert!(n_meas == 0, "unauthenticated/unbound datagram: no measurement");
+        assert!(sh::controller(&src).n_usable == ctl0_usable_calls, "unauthenticated/unbound datagram: usability not re-evaluated");
+        assert!(st1.remote_min_poll_interval == st0.remote_min_poll_interval, "unauthenticated/unbound datagram: no poll-rate change");
+        assert!(st1.protocol_version == st0.protocol_version, "unauthenticated/unbound datagram: no protocol-version change");
+        assert!(st1.cookies == st0.cookies, "unauthenticated/unbound datagram: no stored cookie");
+        assert!(st1.reach == st0.reach && st1.pending == st0.pending, "unauthenticated/unbound datagram: reachability and pending request untouched");
+        assert!(st1.have_deny_rstr_response == st0.have_deny_rstr_response, "unauthenticated/unbound datagram: deny flag untouched");
+        assert!(st1.stratum == st0.stratum && st1.reference_id == st0.reference_id, "unauthenticated/unbound datagram: stratum/reference id untouched");
+        assert!(st1 == st0, "unauthenticated/unbound datagram: no state change at all");
+        assert!(bloom1 == bloom0, "unauthenticated/unbound datagram: Bloom filter untouched");
+    }
+
+    // a Bloom-filter chunk is only taken from an authenticated (pre-authenticator) field
+    let y_is_refid_response = lay.y_len > 0 && msg[lay.y_off()] == 0xF5 && msg[lay.y_off() + 1] == 0x04;
+    if !y_is_refid_response {
+        assert!(bloom1 == bloom0, "Bloom filter only changes through an authenticated reference-id response");
+    }
+
+    // cookies: only from the encrypted part
+    let c0 = st0.cookies.unwrap();
+    let c1 = st1.cookies.unwrap();
+    if processed {
+        assert!(n_meas == 2, "a processed response yields the two measurements");
+        let mut want_new = 0usize;
+        let mut k = 0;
+        while k < lay.inner {
+            let o = n_off + 8 + NONCE_LEN + 16 * k;
+            if msg[o] == 0x02 && msg[o + 1] == 0x04 {
+                want_new += 1;
+            }
+            k += 1;
+        }
+        assert!(c1 == core::cmp::min(MAX_COOKIES, c0 + want_new), "exactly the cookies of the encrypted part are stored");
+        // content of the newest cookies = bodies of the encrypted cookie fields, in order
+        let nd = sh::nts_mut(&mut src).unwrap();
+        let mut seen = 0usize;
+        let mut k = 0;
+        while k < lay.inner {
+            let o = n_off + 8 + NONCE_LEN + 16 * k;
+            if msg[o] == 0x02 && msg[o + 1] == 0x04 {
+                let idx = c1 - want_new + seen;
+                let c = sh::nts_peek_cookie(nd, idx).unwrap();
+                assert!(c.len() == 12, "stored cookie = body of the encrypted cookie field");
+                let mut j = 0;
+                while j < 12 {
+                    assert!(c[j] == msg[o + 4 + j], "stored cookie bytes come from the encrypted part");
+                    j += 1;
+                }
+                seen += 1;
+            }
+            k += 1;
+        }
+    } else {
+        assert!(c1 == c0, "nothing is stored unless a response is processed");
+    }
+
+    Obs {
+        processed,
+        got_cookie: processed && c1 > c0,
+        forged_bound: !accepted_ok && bound && lay.has_nts && !authentic,
+        replay: !accepted_ok && dec_ok,
+        auth_kiss: accepted_ok && rn == 1,
+        unauth_kiss_bound: !accepted_ok && bound && msg[1] == 0,
+        unauth_bound: !accepted_ok && bound,
+    }
+}
+
+/// what happened, for the per-template vacuity guards
+pub struct Obs {
+    processed: bool,
+    got_cookie: bool,
+    forged_bound: bool,
+    replay: bool,
+    auth_kiss: bool,
+    unauth_kiss_bound: bool,
+    unauth_bound: bool,
+}
+
+/// templates with an authenticator field
+macro_rules! c07_nts {
+    ($name:ident, $lay:expr) => {
+        nharness! {
+            #[kani::unwind(34)]
+            #[kani::stub(core::str::from_utf8, crate::common::from_utf8_ascii_model)]
+            fn $name() {
+                const L: Layout = $lay;
+                let mut msg: [u8; L.total()] = kani::any();
+                let o = c07_body(L, &mut msg, Split::Main);
+                kani::cover!(o.processed, "a genuine response is processed");
+                kani::cover!(o.got_cookie, "a genuine response delivers a cookie");
+                kani::cover!(o.forged_bound, "forgery with the right identifiers");
+                kani::cover!(o.replay, "genuine but not bound to the pending request (replay)");
+                kani::cover!(o.auth_kiss, "authenticated kiss-o'-death acts");
+            }
+        }
+    };
+}
+/// templates without an authenticator field (nothing can be authentic)
+macro_rules! c07_plain {
+    ($name:ident, $lay:expr) => {
+        nharness! {
+            #[kani::unwind(34)]
+            #[kani::stub(core::str::from_utf8, crate::common::from_utf8_ascii_model)]
+            fn $name() {
+                const L: Layout = $lay;
+                let mut msg: [u8; L.total()] = kani::any();
+                let o = c07_body(L, &mut msg, Split::Main);
+                assert!(!o.processed && !o.auth_kiss, "nothing is accepted without an authenticator");
+                kani::cover!(o.unauth_kiss_bound, "unauthenticated kiss code with the right identifiers");
+                kani::cover!(o.unauth_bound, "unauthenticated datagram with the right identifiers");
+            }
+        }
+    };
+}
+/// the known departure: no vacuity guard needed, the counterexample is the witness
+macro_rules! c07_kf {
+    ($name:ident, $lay:expr) => {
+        nharness! {
+            #[kani::unwind(34)]
+            #[kani::stub(core::str::from_utf8, crate::common::from_utf8_ascii_model)]
+            fn $name() {
+                const L: Layout = $lay;
+                let mut msg: [u8; L.total()] = kani::any();
+                let _ = c07_body(L, &mut msg, Split::KfAuthnakKiss);
+            }
+        }
+    };
+}
+
+// NTPv4
+c07_plain!(c07_v4_plain, Layout { v5: false, y_len: 0, has_nts: false, inner: 0, x_len: 28 });
+c07_nts!(c07_v4_nts, Layout { v5: false, y_len: 16, has_nts: true, inner: 1, x_len: 28 });
+c07_nts!(c07_v4_nts2, Layout { v5: false, y_len: 0, has_nts: true, inner: 2, x_len: 0 });
+// NTPv5
+c07_plain!(c07_v5_plain, Layout { v5: true, y_len: 0, has_nts: false, inner: 0, x_len: 16 });
+c07_nts!(c07_v5_nts, Layout { v5: true, y_len: 20, has_nts: true, inner: 1, x_len: 20 });
+c07_nts!(c07_v5_nts2, Layout { v5: true, y_len: 0, has_nts: true, inner: 2, x_len: 0 });
+c07_kf!(c07_v5_plain_kf_authnak_kiss, Layout { v5: true, y_len: 0, has_nts: false, inner: 0, x_len: 0 });
